@@ -122,6 +122,7 @@ pub const TRAILING: [&str; 6] = ["", " -- plain words", " -- reset; v1 = 9", " /
 impl Prop for C10 {
   type Case = Case;
   const ID: &'static str = "C10";
+  fn max_shrink_iters() -> u32 { 400 }
   fn budget(t: Tier) -> u32 { t.pick(3_000, 50_000) }
   fn strategy(_t: Tier, _k: &Known) -> BoxedStrategy<Case> {
     let choices = || proptest::collection::vec(0u32..100_000, 4..=40);
